@@ -46,7 +46,8 @@ RULE = (
 ASSUMPTIONS = [
     "Linux/POSIX path semantics; the kernel's resolution of (base dir fd, location) is the definition of the fully resolved location",
     "sandbox is static while a case runs (no TOCTOU races are exercised; docs/security.md lists them as known limitation)",
-    "bytes are attributed to files by 64-byte unique canaries; reads of at least 8 bytes",
+    "bytes are attributed to files by 64-byte unique canaries at the start of each (sparse) file followed by zeros; reads of "
+    "at least 8 bytes, starting inside the canary",
     "CPython audit events 'open' and 'mmap.__new__' are raised for every file open / mapping made from Python code (PEP 578); "
     "opens from C extensions that bypass them are only visible to the strace observer (thorough tier)",
     "'raises' accepts any Exception type; an allowed location that is refused is not a violation (report_only)",
@@ -76,6 +77,12 @@ def plan(tier: str) -> dict:
                 "load_base_dir_judged_for_model_file_symlinked_into_another_dir": 1500,
                 "stateful_cases": 800,
                 "stateful_refused_although_previously_mapped": 80,
+                # size classes (tensors of at least 64 KiB; most around 1 MiB)
+                "big_reads_judged": 900,
+                "big_allowed_read_ok": 150,
+                "big_disallowed_existing_file_refused": 350,
+                "big_bulk_disallowed_existing_file_refused": 60,
+                "big_stateful_cases": 80,
             }
             if quick
             else {
@@ -91,6 +98,11 @@ def plan(tier: str) -> dict:
                 "stateful_refused_although_previously_mapped": 2000,
                 "strace_cases_observed": 1000,
                 "strace_inventory_open": 150,
+                "big_reads_judged": 4500,
+                "big_allowed_read_ok": 750,
+                "big_disallowed_existing_file_refused": 1750,
+                "big_bulk_disallowed_existing_file_refused": 300,
+                "big_stateful_cases": 400,
             }
         ),
         "min_nontrivial": 6000 if quick else 60000,
@@ -148,7 +160,7 @@ def exec_read(sb: Sandbox, spec: dict):
 def _run_entry(sb: Sandbox, spec: dict, t):
     entry = spec["entry"]
     if entry in L.MODEL_ENTRIES:
-        model = L.lib(lambda: L.model_with(t, spec.get("position", "init"), companion="parallel" in entry))
+        model = L.lib(lambda: L.model_with(t, spec.get("position", "init"), companion=L.wants_companion(entry)))
         return ("bytes", L.run_model_entry(sb, entry, model, t.name))
     return ("bytes", L.run_tensor_entry(sb, entry, t))
 
@@ -167,6 +179,13 @@ def judge_read(ctx, sb: Sandbox, spec: dict, truth: L.Truth, outcome, events, ob
     entry = spec["entry"]
     off = spec["offset"] or 0
     n = L.nbytes_of(spec)
+    size = L.size_suffix(spec)  # "" for the small tensors, "|size>=2^20" ... for the size classes
+    big = "big_" if size else ""
+    bulk = "bulk_" if entry in L.MODEL_ENTRIES or entry.startswith("convert_from") else ""
+    if big:
+        ctx.count("big_reads_judged")
+        ctx.count(f"big_size:{L.size_class(spec)}")
+        ctx.count(f"big_entry:{entry}")
     for ev in events:
         e = sb.inv.get((ev[1], ev[2]))
         if e is None:
@@ -179,7 +198,7 @@ def judge_read(ctx, sb: Sandbox, spec: dict, truth: L.Truth, outcome, events, ob
             continue
         viols.append((
             f"{observer}-{ev[0]}",
-            f"escape:{ev[0]}-observed|loc={truth.cls}|entry={entry}",
+            f"escape:{ev[0]}-observed|loc={truth.cls}|entry={entry}{size}",
             f"{ev[0]}({ev[3]}) reached {e.relpaths} (nlink={e.nlink}) which is not an allowed file for this case",
         ))
     if outcome[0] == "raised":
@@ -191,12 +210,18 @@ def judge_read(ctx, sb: Sandbox, spec: dict, truth: L.Truth, outcome, events, ob
             ctx.count(f"outcome:disallowed-raised:{exc}")
             if truth.exists and not truth.cls.startswith("directory"):
                 ctx.count("disallowed_existing_file_refused")
+                if big:
+                    ctx.count("big_disallowed_existing_file_refused")
+                    if bulk:
+                        ctx.count("big_bulk_disallowed_existing_file_refused")
     else:
         data = outcome[1]
         src = sb.source_of(data, off) if len(data) >= 8 else None
         src_txt = f"canary of {src.relpaths}" if src is not None else "no canary"
         if truth.allowed and src is sb.inv[truth.key] and len(data) == n:
             ctx.count("outcome:allowed-read-ok")
+            if big:
+                ctx.count("big_allowed_read_ok")
         elif truth.allowed and src is None:
             # right file or no file at all, wrong bytes/length: a fidelity matter (C04/C07), not containment
             ctx.count("report_only_allowed_read_unexpected_bytes")
@@ -204,7 +229,7 @@ def judge_read(ctx, sb: Sandbox, spec: dict, truth: L.Truth, outcome, events, ob
             kind = "bytes" if data else "no-raise"
             viols.append((
                 kind,
-                f"escape:{kind}-returned|loc={truth.cls}|entry={entry}",
+                f"escape:{kind}-returned|loc={truth.cls}|entry={entry}{size}",
                 f"{len(data)} byte(s) delivered ({src_txt}) although the location is "
                 f"{'allowed but resolves to another file' if truth.allowed else 'not allowed: ' + truth.cls}",
             ))
@@ -275,6 +300,16 @@ def shrink_read(ctx, sb: Sandbox, spec: dict, kind: str, cls: str) -> dict:
         budget -= 1
         if still(cand):
             cur = cand
+    if L.size_class(cur):
+        # the violation needs a large tensor: find the smallest size-class boundary that keeps it
+        for k, _w in L.SIZE_TIERS:
+            if (1 << k) >= L.nbytes_of(cur):
+                break
+            cand = dict(cur, dtype="UINT8", shape=[1 << k], length=None)
+            budget -= 1
+            if still(cand):
+                cur = cand
+                break
     progress = True
     while progress and budget > 0:
         progress = False
@@ -308,8 +343,13 @@ def report_read_violations(ctx, sb: Sandbox, spec: dict, truth, outcome, viols) 
             continue
         seen.add(sig)
         small = shrink_read(ctx, sb, spec, kind, truth.cls) if ctx.counters.get("violations_raw", 0) < 60 else spec
-        t2, o2, _ = run_read_case(ctx, sb, small, count=False)
-        ctx.violation(sig, f"{text}. Witness (shrunk): {describe(sb, small, t2, o2)}",
+        t2, o2, v2 = run_read_case(ctx, sb, small, count=False)
+        # the size class in the signature is that of the shrunk witness
+        sig2 = next((s2 for k2, s2, _ in v2 if k2 == kind), sig)
+        if sig2 in seen and sig2 != sig:
+            continue
+        seen.add(sig2)
+        ctx.violation(sig2, f"{text}. Witness (shrunk): {describe(sb, small, t2, o2)}",
                       {"kind": "read", "spec": small})
 
 
@@ -376,8 +416,7 @@ def _apply_mutation(sb: Sandbox, spec: dict, t, mut: str, cur_base: str) -> str:
         os.symlink(f"{R}/dyn/base/other.bin", victim)
     elif mut == "swap-regular":
         os.unlink(victim)
-        with open(victim, "wb") as f:
-            f.write(L.canary("dyn-new-content"))
+        L.write_canary_file(victim, L.canary("dyn-new-content"))
     elif mut == "swap-dir-symlink-out":
         os.rename(f"{R}/dyn/base/sub", f"{R}/dyn/hold/sub_real")
         os.symlink("../out/sub", f"{R}/dyn/base/sub")
@@ -403,7 +442,7 @@ def _stateful_entry(sb: Sandbox, entry: str, t, position: str):
     AUDIT.events = []
     try:
         if entry in L.MODEL_ENTRIES:
-            model = L.lib(lambda: L.model_with(t, position, companion="parallel" in entry))
+            model = L.lib(lambda: L.model_with(t, position, companion=L.wants_companion(entry)))
             return ("bytes", L.run_model_entry(sb, entry, model, t.name)), AUDIT.events
         return ("bytes", L.run_tensor_entry(sb, entry, t)), AUDIT.events
     except LibRaised as e:
@@ -448,6 +487,9 @@ def run_stateful_case(ctx, sb: Sandbox, spec: dict, count: bool = True):
         truth = L.compute_truth(sb, cur_base, loc_o)
         outcome, events = _stateful_entry(sb, spec["B"], t, spec["positionB"])
         c.count("stateful_cases")
+        big = bool(L.size_class(spec))
+        if big:
+            c.count("big_stateful_cases")
         c.count(f"stateA:{spec['A']}")
         c.count(f"stateB:{spec['B']}")
         c.count(f"mut:{spec['mut']}{'+' + spec['suffix'] if spec['suffix'] else ''}")
@@ -472,6 +514,8 @@ def run_stateful_case(ctx, sb: Sandbox, spec: dict, count: bool = True):
                 c.count(f"stateful_outcome:disallowed-raised:{exc}")
                 if truth.exists and not truth.cls.startswith("directory"):
                     c.count("stateful_disallowed_existing_file_refused")
+                    if big:
+                        c.count("big_stateful_disallowed_existing_file_refused")
                     if mapped:
                         c.count("stateful_refused_although_previously_mapped")
         else:
@@ -479,6 +523,8 @@ def run_stateful_case(ctx, sb: Sandbox, spec: dict, count: bool = True):
             src = sb.source_of(data, off) if len(data) >= 8 else None
             if truth.allowed and src is sb.inv[truth.key] and len(data) == n:
                 c.count("stateful_outcome:allowed-read-ok")
+                if big:
+                    c.count("big_stateful_allowed_read_ok")
             elif prev is not None and data == prev:
                 # bytes of the file validated by the first read, served from the retained mapping
                 # (the statement does not say a mapping must be dropped).  If instead the file was
@@ -500,7 +546,7 @@ def run_stateful_case(ctx, sb: Sandbox, spec: dict, count: bool = True):
 
 def stateful_signature(spec: dict) -> str:
     mut = spec["mut"] + ("+" + spec["suffix"] if spec["suffix"] else "")
-    return f"escape-after-prior-read|A={spec['A']}|mut={mut}|B={spec['B']}"
+    return f"escape-after-prior-read|A={spec['A']}|mut={mut}|B={spec['B']}{L.size_suffix(spec)}"
 
 
 def describe_stateful(spec: dict, truth, outcome) -> str:
@@ -526,6 +572,14 @@ def report_stateful(ctx, sb: Sandbox, spec: dict, viols) -> None:
         cand = dict(cur, **change)
         if still(cand):
             cur = cand
+    if L.size_class(cur):  # needs a large tensor: smallest size-class boundary that keeps the violation
+        for k, _w in L.SIZE_TIERS:
+            if (1 << k) >= L.nbytes_of(cur):
+                break
+            cand = dict(cur, dtype="UINT8", shape=[1 << k], offset=None, length=None)
+            if still(cand):
+                cur = cand
+                break
     v, truth, outcome = run_stateful_case(ctx, sb, cur, count=False)
     kinds, text = v[0]
     ctx.violation(stateful_signature(cur),
@@ -583,7 +637,7 @@ def _write_model(sb: Sandbox, spec: dict) -> tuple[str, list[str]]:
     by_pos: dict[str, list] = {}
     for ts in spec["tensors"]:
         by_pos.setdefault(ts["position"], []).append(L.tensor_proto(ts["name"], sb.subst(ts["loc"]), ts))
-    if spec["mode"] == "model" and "parallel" in spec.get("entry", ""):
+    if spec["mode"] == "model" and L.wants_companion(spec.get("entry", "")):
         comp = onnx.helper.make_tensor("companion", onnx.TensorProto.UINT8, [24], bytes(range(24)), raw=True)
         by_pos.setdefault(spec["tensors"][0]["position"], []).insert(0, comp)
     proto = L.build_model_proto(by_pos)
@@ -951,7 +1005,7 @@ def strace_batch(ctx, sb: Sandbox, n: int) -> None:
             except (OSError, ValueError):
                 continue
             events.append(("open", st.st_dev, st.st_ino, repr(p)))
-        outcome = ("bytes", bytes.fromhex(res["hex"])) if res["kind"] == "bytes" else ("raised", RuntimeError(res["exc"]))
+        outcome = ("bytes", bytes.fromhex(res["hex"]) + bytes(res.get("zeros", 0))) if res["kind"] == "bytes" else ("raised", RuntimeError(res["exc"]))
         viols = judge_read(ctx, sb, spec, truth, outcome, events, observer="strace")
         ctx.count("strace_cases_observed")
         ctx.count("strace_child_audit_inventory_open", res.get("audit_events", 0))
